@@ -1,5 +1,6 @@
 import MJ.Proofs.Fuel
 import MJ.Proofs.FuelMachine
+import MJ.Proofs.FuelProg
 /-!
 # C13 — fuel gives every render a fixed, exact success threshold
 
@@ -431,8 +432,9 @@ theorem wrapper_kinds_come_from_frames (hs : List Handler) (e : RErr) (h : ∀ x
 example : (passThrough [.wrapKeepingSource "BadInclude", .wrapKeepingSource "BadInclude"] .outOfFuel).wrapperKinds = ["BadInclude", "BadInclude"] := by decide
 
 /-- WHO CONSUMES AN ERROR OF A NESTED EVALUATION.  Table regenerated from `minijinja/src/**`
-    (outside compiler/, vendor/): every `map_err(`, `.ok()`, `unwrap_or*`, `or_else(`, `is_err()`,
-    `if let Err(`, `Err(_)` and `Err(e) =>` whose consumed value comes from a call that receives the
+    (outside compiler/, vendor/): every `map_err(`, `.ok()`, `unwrap_or*`, `or_else(`, `.or(`, `map_or*(`,
+    `is_err()`, `is_ok_and(`, `is_err_and(`, `if let Err(`, `if let Ok(`, `Err(_)` and `Err(e) =>` whose
+    consumed value comes from a call that receives the
     `State`, starts an evaluation, or could not be resolved; with what happens to the original.
     Every such site propagates the original, wraps it keeping it as `source()`, or (the two
     `*_to_write` entry points) reports the writer's I/O error instead when the writer had failed —
@@ -504,5 +506,214 @@ theorem legacy_defect :
     Legacy.track (Legacy.new 9223372036854775807) 1 = .ok (.ok ⟨9223372036854775807, 9223372036854775806⟩) ∧
     (Tracker.new 18446744073709551615).track 1 = .ok ⟨18446744073709551615, 18446744073709551614⟩ ∧
     (Tracker.new 9223372036854775808).track 1 = .ok ⟨9223372036854775808, 9223372036854775807⟩ := by decide
+
+/-! ## the cost table is total -/
+
+/-- THE COST TABLE IS TOTAL.  `MJ.Gen.instrVariants` = every variant of `enum Instruction` with its
+    `#[cfg(feature = …)]`, `MJ.Gen.fuelCostArms` = every arm of `fuel_for_instruction` with its `#[cfg]`
+    and cost, both regenerated from the sources on every run.  For the four feature sets over
+    {`macros`, `multi_template`}:
+    * every arm that is compiled names a variant that exists in that configuration (otherwise the
+      crate does not compile there — the defect repaired by f3f0dd2: `LoadBlocks` in the `macros` arm);
+    * the variant names are distinct, every variant has exactly one row, every cost is 0 or 1;
+    * the cost of a variant is the same in every configuration in which it exists, and it is the
+      model's `costOf`;
+    * the full configuration has all variants; every explicit row of the old table names a variant. -/
+theorem cost_table_total :
+    (MJ.Gen.fuelCostArms.all fun a => featureSets.all fun fs => !cfgOn fs a.2.1 || (variantsUnder fs).contains a.1) = true ∧
+    (MJ.Gen.instrVariants.map (·.1)).Nodup ∧
+    (featureSets.all fun fs =>
+      (costTable fs).map (·.1) == variantsUnder fs && (costTable fs).all (fun r => r.2 == 0 || r.2 == 1)) = true ∧
+    (featureSets.all fun fs => (variantsUnder fs).all fun n => costUnder fs n == costOf n) = true ∧
+    (variantsUnder allFeatures = MJ.Gen.instrVariants.map (·.1)) ∧
+    (MJ.Gen.fuelCosts.all fun r => (MJ.Gen.instrVariants.map (·.1)).contains r.1) = true := by
+  decide
+
+example : costUnder ["multi_template"] "LoadBlocks" = 0 ∧ costUnder [] "Emit" = 1 ∧ (variantsUnder ["macros"]).contains "LoadBlocks" = false
+    ∧ (costTable allFeatures).length = MJ.Gen.instrVariants.length := by decide
+
+/-- every instruction costs at most 1 (also names that are no variants: the `_` arm), so a render
+    never consumes more than it dispatches and its threshold is at most the trace length + 1 -/
+theorem cost_at_most_one : (∀ n, costOf n ≤ 1) ∧ (∀ trace, total trace ≤ trace.length) ∧ (∀ trace, thr trace ≤ trace.length + 1) := by
+  have h : ∀ n, costOf n ≤ 1 := costOf_le_one (by decide) (by decide)
+  refine ⟨h, total_le_length h, ?_⟩
+  intro trace
+  have := total_le_length h trace
+  unfold thr
+  split <;> omega
+
+example : costOf "Emit" ≤ 1 ∧ costOf "no such instruction" ≤ 1 := by decide
+
+/-! ## one tracker per render -/
+
+/-- the call edges among the nested-evaluation functions; a `callable::call` on a macro value is
+    `Macro::call` -/
+def nestedGraph : List (String × List String) :=
+  (MJ.Gen.nestedFns.map fun r => (r.1, r.2.2.2.2)) ++ [("callable::call", ["Macro::call"])]
+
+/-- WHO CREATES, REPLACES, CLONES OR RESTORES A TRACKER OR A STATE.  Regenerated from
+    `minijinja/src/**` and `minijinja-contrib/src/**`: every `State { … }` / `FuelTracker { … }` struct
+    literal, every call of `State::new` / `State::new_for_env` / `vm::eval` / `Executor::eval`, every
+    `FuelTracker::new`, every assignment to, method call on, mutable borrow of and
+    `mem::replace/take/swap` over `fuel_tracker`, every overwrite of a whole state (`*state = …`), and
+    the derives and `Clone`/`Copy`/`Default` impls of both types.  The list is exactly:
+    * the one constructor `State::new` (literal, field initialiser, `FuelTracker::new`);
+    * its callers, the documented roots: `Executor::eval` (reached from `Template::_eval`,
+      `Expression::_eval` and the machinery re-export `lib.rs eval`), `Template::new_state`, and
+      `State::new_for_env` ← `Environment::empty_state`;
+    * the mutable borrow in `eval_impl` (the charge);
+    * `FuelTracker::new`'s own literal; neither type derives or implements `Clone`, `Copy`, `Default`.
+    A second creation or replacement site (`seeded/C13-1`, `C13-5`) changes this list. -/
+theorem tracker_sites_as_modelled :
+    MJ.Gen.trackerSites = [
+      ("environment.rs", "fn empty_state", "State::new_for_env()"),
+      ("expression.rs", "fn _eval", "vm::eval()"),
+      ("lib.rs", "fn eval", "vm::eval()"),
+      ("template.rs", "fn _eval", "vm::eval()"),
+      ("template.rs", "fn new_state", "State::new()"),
+      ("vm/fuel.rs", "fn new", "FuelTracker-literal"),
+      ("vm/fuel.rs", "struct FuelTracker", "derive:none"),
+      ("vm/mod.rs", "fn eval", "Executor::eval()"),
+      ("vm/mod.rs", "fn eval", "State::new()"),
+      ("vm/mod.rs", "fn eval_impl", "fuel_tracker:mut-borrow"),
+      ("vm/state.rs", "fn new", "FuelTracker::new"),
+      ("vm/state.rs", "fn new", "State-literal"),
+      ("vm/state.rs", "fn new", "fuel_tracker:field-init"),
+      ("vm/state.rs", "fn new_for_env", "State::new()"),
+      ("vm/state.rs", "struct State", "derive:none"),
+      ("vm/state.rs", "struct State", "fuel_tracker:field-init")] := by decide
+
+/-- EVERY NESTED EVALUATION RUNS ON ITS CALLER'S STATE.  For the 22 functions through which a nested
+    evaluation is entered (regenerated: how they get the state, creation/render/tracker tokens in
+    their bodies, whom they call): each takes the `State` by `&mut`, none contains a creation token
+    (`State {`, `State::new`, `vm::eval`, `FuelTracker`, an assignment/replace/take of `fuel_tracker`,
+    `*state =`, `.new_state(`, `.empty_state(`, `.render*(`, `.eval(`), none but `eval_impl` mentions
+    `fuel_tracker`, and every entry reaches the single charge site `Executor::eval_impl`. -/
+theorem nested_evaluations_share_state :
+    (MJ.Gen.nestedFns.all fun r => r.2.1 == "&mut" && r.2.2.1 == "" &&
+      (r.2.2.2.1 == "" || r.1 == "Executor::eval_impl")) = true ∧
+    (["State::render_block", "State::render_block_to_write", "State::call_macro", "State::apply_filter",
+      "State::perform_test", "Macro::call", "Value::call", "Value::call_method", "vm::call_block", "vm::eval_macro",
+      "Executor::perform_include", "Executor::perform_super", "Executor::call_block", "Executor::eval_macro"].all
+        (reaches nestedGraph "Executor::eval_impl" 8)) = true ∧
+    MJ.Gen.nestedFns.length = 22 := by decide
+
+/-- ONE TRACKER PER RENDER.  A call tree whose nested activations all share the caller's tracker
+    (what the two table theorems above say about the code) is accounted exactly like its flattened
+    instruction trace: all trace-level theorems apply to it. -/
+theorem one_tracker_per_render (t : Tracker) (e : PEvs) (h : e.allShare = true) :
+    runTreeP t e = runFrom t (flatten e.erase) := by
+  rw [runTreeP_share t e h, runTree_eq_runFrom]
+
+example : (PEvs.call "Include" .share (.instr "Emit" (.call "CallFunction" .share (.instr "Emit" .nil) .nil)) (.instr "Emit" .nil)).allShare = true
+    ∧ flatten (PEvs.call "Include" .share (.instr "Emit" (.call "CallFunction" .share (.instr "Emit" .nil) .nil)) (.instr "Emit" .nil)).erase
+      = ["Include", "Emit", "CallFunction", "Emit", "Emit"] := by decide
+
+/-- … and that hypothesis is needed: with ONE nested activation that runs on a fresh tracker (a
+    second creation site) or whose level is restored afterwards, the budget `c` (the cost, one below
+    the threshold) succeeds instead of running out of fuel and a sufficient budget reports less
+    than `c` consumed. -/
+theorem second_tracker_breaks_accumulation :
+    let tree (pol : Pol) := PEvs.instr "Emit" (.call "CallFunction" pol (.instr "Emit" (.instr "Emit" .nil)) (.instr "Emit" .nil))
+    let c := total (flatten (tree .share).erase)
+    c ≠ 0 →
+      (runTreeP (Tracker.new c) (tree .share)).status = .outOfFuel ∧
+      (runTreeP (Tracker.new c) (tree (.fresh c))).status = .done ∧
+      (runTreeP (Tracker.new c) (tree .restore)).status = .done ∧
+      (runTreeP (Tracker.new (c + 1)) (tree .share)).tracker.consumed = c ∧
+      (runTreeP (Tracker.new (c + 1)) (tree (.fresh (c + 1)))).tracker.consumed < c ∧
+      (runTreeP (Tracker.new (c + 1)) (tree .restore)).tracker.consumed < c := by
+  decide
+
+/-! ## structured programs -/
+
+/-- the cost computed on the program — a function of the context — is the total of the trace the
+    unlimited run executes, and both agree on whether the render ends with an error of its own -/
+theorem prog_cost_is_total (c : Ctx) (p : P) :
+    (cost c [] p).1 = total (exec c [] p).1 ∧ (cost c [] p).2 = (exec c [] p).2 := by
+  rw [cost_eq]; exact ⟨rfl, rfl⟩
+
+/-- the threshold of a structured program in a context -/
+def progThr (c : Ctx) (p : P) : Nat := if (cost c [] p).1 = 0 then 0 else (cost c [] p).1 + 1
+
+/-- THRESHOLD FOR PROGRAMS WITH DATA-DEPENDENT LOOPS.  For every structured program, every context
+    (trip counts and failing instructions as functions of the iteration path) and every `u64` budget:
+    at or above `cost + 1` (0 when nothing is charged) the render dispatches exactly the unlimited
+    run's instructions, ends the same way (normally or with the program's own error) and consumes
+    exactly `cost`; below it ends out of fuel after a proper prefix; the levels add up. -/
+theorem prog_threshold_exact (c : Ctx) (p : P) (B : Nat) (hB : B < u64Bound) :
+    (progThr c p ≤ B →
+      (runProg B c p).1 = (runProgNoFuel c p).1 ∧ (runProg B c p).2.executed = (runProgNoFuel c p).2 ∧
+      (runProg B c p).2.tracker.consumed = (cost c [] p).1) ∧
+    (B < progThr c p →
+      (runProg B c p).1 = .outOfFuel ∧ (runProg B c p).2.executed <+: (runProgNoFuel c p).2 ∧
+      (runProg B c p).2.executed.length < (runProgNoFuel c p).2.length) ∧
+    (runProg B c p).2.tracker.consumed + (runProg B c p).2.tracker.remainingFuel = B := by
+  obtain ⟨hge, hlt, hsum, _, _⟩ := threshold_exact (exec c [] p).1 B hB
+  have hc : (cost c [] p).1 = total (exec c [] p).1 := (prog_cost_is_total c p).1
+  have hthr : progThr c p = thr (exec c [] p).1 := by simp [progThr, thr, hc]
+  refine ⟨?_, ?_, hsum⟩
+  · intro h
+    obtain ⟨h1, h2, h3⟩ := hge (hthr ▸ h)
+    refine ⟨?_, h2, by rw [hc]; exact h3⟩
+    simp only [runProg, runProgNoFuel, h1]
+  · intro h
+    obtain ⟨h1, h2, h3⟩ := hlt (hthr ▸ h)
+    refine ⟨?_, h2, h3⟩
+    simp only [runProg, h1]
+
+/-- a loop whose body costs the same `k` in every iteration (and does not fail): the cost is linear in
+    the trip count, which comes from the context -/
+theorem uniform_loop_cost_linear (c : Ctx) (id : Nat) (head iter : List String) (body : P) (back exit : List String) (k : Nat)
+    (h : ∀ i, i < c.count id [] → cost c [i] body = (k, true)) :
+    cost c [] (.loop id head iter body back exit)
+      = (total head + c.count id [] * (total iter + k + total back) + total exit, true) := by
+  simp only [cost]
+  have hm : ((List.range (c.count id [])).map fun i =>
+      chainN [(total iter, true), cost c ([] ++ [i]) body, (total back, true)])
+      = List.replicate (c.count id []) (total iter + k + total back, true) := by
+    rw [map_const_replicate _ _ (total iter + k + total back, true)]
+    · simp
+    · intro i hi
+      have := h i (List.mem_range.mp hi)
+      simp only [List.nil_append, this, chainN]
+      simp [Nat.add_assoc]
+  rw [hm, List.cons_append]
+  simp only [chainN, chainN_replicate]
+  simp [Nat.add_assoc]
+
+/-- a render that fails for a reason of its own -/
+theorem error_threshold_exact (c : Ctx) (p : P) (hfail : (exec c [] p).2 = false) (B B' : Nat)
+    (hB : B < u64Bound) (hB' : B' < u64Bound) :
+    (runProgNoFuel c p).1 = .ownError ∧
+    (progThr c p ≤ B → (runProg B c p).1 = .ownError ∧ (runProg B c p).2.executed = (exec c [] p).1) ∧
+    (B < progThr c p → (runProg B c p).1 = .outOfFuel) ∧
+    (progThr c p ≤ B → progThr c p ≤ B' →
+      (runProg B c p).1 = (runProg B' c p).1 ∧ (runProg B c p).2.executed = (runProg B' c p).2.executed ∧
+      (runProg B c p).2.tracker.consumed = (runProg B' c p).2.tracker.consumed) := by
+  have hn : (runProgNoFuel c p).1 = .ownError := by simp [runProgNoFuel, hfail]
+  obtain ⟨hge, hlt, _⟩ := prog_threshold_exact c p B hB
+  obtain ⟨hge', _, _⟩ := prog_threshold_exact c p B' hB'
+  refine ⟨hn, ?_, fun h => (hlt h).1, ?_⟩
+  · intro h
+    obtain ⟨h1, h2, _⟩ := hge h
+    exact ⟨h1.trans hn, h2⟩
+  · intro h h'
+    obtain ⟨h1, h2, h3⟩ := hge h
+    obtain ⟨h1', h2', h3'⟩ := hge' h'
+    exact ⟨h1.trans h1'.symm, h2.trans h2'.symm, h3.trans h3'.symm⟩
+
+/-- two nested loops: the inner trip count is the outer index (a triangle), the innermost
+    instruction fails in iteration (2, 1) -/
+private def demoCtx : Ctx := { count := fun id path => if id = 0 then 3 else path.getLastD 0, fails := fun _ path => path == [2, 1] }
+private def demoProg : P :=
+  .loop 0 ["Lookup", "PushLoop"] ["Iterate", "StoreLocal"]
+    (.loop 1 ["Lookup", "PushLoop"] ["Iterate", "StoreLocal"] (.seq (.mayFail "IntDiv" 0) (.instr "Emit")) ["Jump"] ["Iterate", "PopLoopFrame"])
+    ["Jump"] ["Iterate", "PopLoopFrame"]
+
+example : (exec demoCtx [] demoProg).2 = false ∧ (exec demoCtx [] demoProg).1.length = 33
+    ∧ (exec { demoCtx with fails := fun _ _ => false } [] demoProg).2 = true
+    ∧ (cost { demoCtx with fails := fun _ _ => false } [] demoProg).1 = total (exec { demoCtx with fails := fun _ _ => false } [] demoProg).1 := by
+  decide
 
 end MJ.C13
